@@ -298,3 +298,36 @@ Definition accepts (prog : list astep) (tr : list tev) : bool :=
   accepts_skel (List.filter (fun a => negb (is_append a || is_mkdirall a)) prog)
                (List.filter (fun e => negb (is_twrite e)) tr)
   && writes_open [] tr.
+
+(* ---- the Go calls the steps stand for (compared with the call order that
+   goextract reads from the source on every run) ----------------------------- *)
+Definition member_field (m : member) : string :=
+  match m with MCtl => "ControlFile" | MSig => "SignatureFile" | MDat => "PackageFile" | MTar => "TarFile" end.
+Definition member_of_path (p : path) : member :=
+  match p with PTmpMem _ _ m | PMember _ m _ => m | _ => MCtl end.
+
+(* retrieveAndSaveFile: consecutive writes are one io.Copy; Close is deferred *)
+Fixpoint index_calls (prog : list astep) (copying : bool) : list string :=
+  match prog with
+  | [] => []
+  | MkdirAll _ :: r => "os.MkdirAll" :: index_calls r false
+  | Create _ :: r => "os.CreateTemp" :: index_calls r false
+  | Append _ _ :: r => if copying then index_calls r true else "io.Copy" :: index_calls r true
+  | Close _ :: r => index_calls r false
+  | Advertise _ _ :: r => "paths.AdvertiseCachedFile" :: index_calls r false
+  | _ :: r => "?" :: index_calls r false
+  end.
+
+Definition advertise_call_names : list string :=
+  "os.Stat" :: List.map (fun a => match a with Remove _ => "os.Remove" | Symlink _ _ => "os.Symlink" | _ => "?" end)
+                        [Remove (PDir ""); Symlink (PDir "") (PDir "")].
+
+Local Infix "+s+" := String.append (at level 60, right associativity).
+Definition cache_package_call_names (advs : list (path * path)) : list string :=
+  List.map (fun st => "paths.AdvertiseCachedFile(" +s+ member_field (member_of_path (fst st)) +s+ ")") advs.
+
+(* PackageData as modelled by [Rebuild]/[CreateFollow]: open the tar; else open
+   the data section, CREATE THE FINAL NAME, copy, reopen *)
+Definition package_data_call_names : list string :=
+  ["os.Open(" +s+ member_field MTar +s+ ")"; "os.Open(" +s+ member_field MDat +s+ ")";
+   "os.Create(" +s+ member_field MTar +s+ ")"; "io.CopyBuffer(_)"; "os.Open(" +s+ member_field MTar +s+ ")"].
